@@ -19,6 +19,7 @@ type Gen struct {
 	Pats    []string
 	Keys    []string
 	Targets []string
+	added   map[int][]string // local patterns / keys added so far (aimed removals)
 }
 
 // canonical nesting / overlapping prefixes
@@ -234,6 +235,13 @@ func (g *Gen) tick() Op {
 	return Op{Code: OpTick, Ms: int64(g.R.Pick(1, 1, 499, 500, 1000, 1000, 5000, 60000))}
 }
 
+func (g *Gen) noteAdded(code int, name string) {
+	if g.added == nil {
+		g.added = map[int][]string{}
+	}
+	g.added[code] = append(g.added[code], name)
+}
+
 // victim picks a stored route that is not the last of a bucket of at least
 // three (most often the head): removing it is where an order-destroying
 // removal shows. Buckets are taken in sorted key order, so the choice depends
@@ -338,8 +346,13 @@ func (g *Gen) Next(d *Dump, nowMs int64) Op {
 		case x < 68:
 			return Op{Code: OpDClean, Ms: g.ageMs(d, []string{"dexact", "dwild"}, nowMs)}
 		case x < 80:
-			return Op{Code: OpDAddLocal, Name: pat(), Metric: g.metric()}
+			op := Op{Code: OpDAddLocal, Name: pat(), Metric: g.metric()}
+			g.noteAdded(OpDRmLocal, op.Name)
+			return op
 		case x < 88:
+			if a := g.added[OpDRmLocal]; len(a) > 0 && r.Chance(2, 3) {
+				return Op{Code: OpDRmLocal, Name: a[r.Intn(len(a))]}
+			}
 			return Op{Code: OpDRmLocal, Name: pat()}
 		default:
 			if e, ok := g.victim(d, []string{"dexact", "dwild"}[r.Intn(2)]); ok && r.Chance(1, 2) {
@@ -363,8 +376,13 @@ func (g *Gen) Next(d *Dump, nowMs int64) Op {
 		case x < 68:
 			return Op{Code: OpFClean, Ms: g.ageMs(d, []string{"fwd"}, nowMs)}
 		case x < 80:
-			return Op{Code: OpFAddLocal, Name: key(), Target: tgt(), Metric: g.metric()}
+			op := Op{Code: OpFAddLocal, Name: key(), Target: tgt(), Metric: g.metric()}
+			g.noteAdded(OpFRmLocal, op.Name)
+			return op
 		case x < 88:
+			if a := g.added[OpFRmLocal]; len(a) > 0 && r.Chance(2, 3) {
+				return Op{Code: OpFRmLocal, Name: a[r.Intn(len(a))]}
+			}
 			return Op{Code: OpFRmLocal, Name: key()}
 		default:
 			if e, ok := g.victim(d, "fwd"); ok && r.Chance(1, 2) {
